@@ -205,6 +205,81 @@ ChainCalls ==
     \cup {[C0 EXCEPT !.op = "openclose", !.p = AbsP(<<"w", "l1">>), !.flag = <<"RDONLY">>]}
     \cup {[C0 EXCEPT !.op = "truncate", !.p = AbsP(<<"w", "l1">>), !.n = 0]}
 
+(***************************************************************************)
+(* Profiles "perm1" / "perm2" (C03): configured initial states - the       *)
+(* directories /w/d and /w/e and the files /w/d/f and /w/e/b with every    *)
+(* owner class relative to the acting user (owner / group member / other), *)
+(* every rwx triple for that class (the two other classes get the          *)
+(* COMPLEMENT, so that picking the wrong class flips every decision),      *)
+(* sticky and set-gid directories, several umasks, /w with and without     *)
+(* search permission - crossed with every path-taking call by the          *)
+(* non-administrator u1 (uid 1001, gid 1001) and by the administrator.     *)
+(* MaxLen is the size level: 1 = quick slice, 2 = thorough.                *)
+(***************************************************************************)
+PD == AbsP(<<"w", "d">>)
+PE == AbsP(<<"w", "e">>)
+PF == AbsP(<<"w", "d", "f">>)
+PG == AbsP(<<"w", "e", "b">>)
+PNewD == AbsP(<<"w", "d", "a">>)
+PNewE == AbsP(<<"w", "e", "a">>)
+Classes == {"own", "grp", "oth"}
+OwnerOfClass(cl) == CASE cl = "own" -> <<1001, 1002>> [] cl = "grp" -> <<1002, 1001>> [] OTHER -> <<1002, 1002>>
+ShiftOfClass(cl) == CASE cl = "own" -> 64 [] cl = "grp" -> 8 [] OTHER -> 1
+PermMode(cl, rwx, extra) ==
+    LET sh == ShiftOfClass(cl) IN
+    rwx * sh + (7 - rwx) * ((64 + 8 + 1) - sh) + extra
+NodeCfgs(rwxs, extras) == [cl : Classes, rwx : rwxs, extra : extras]
+CChown(p, og) == [C0 EXCEPT !.op = "chown", !.p = p, !.uid = og[1], !.gid = og[2]]
+CChmod(p, m) == [C0 EXCEPT !.op = "chmod", !.p = p, !.perm = m]
+Dress(p, nc) == <<CChown(p, OwnerOfClass(nc.cl)), CChmod(p, PermMode(nc.cl, nc.rwx, nc.extra))>>
+PermHist(cfg) ==
+    <<[Mk("mkdir", PD) EXCEPT !.perm = 511], [Mk("mkdir", PE) EXCEPT !.perm = 511], Mk("writefile", PF), Mk("writefile", PG)>>
+    \o Dress(PF, cfg.f) \o Dress(PG, cfg.g) \o Dress(PD, cfg.d) \o Dress(PE, cfg.e)
+    \o <<CChmod(WorkP, cfg.w), [C0 EXCEPT !.op = "setumask", !.perm = cfg.um],
+         [C0 EXCEPT !.op = "setuser", !.uid = cfg.actor, !.gid = cfg.actor]>>
+NC(cl, rwx, extra) == [cl |-> cl, rwx |-> rwx, extra |-> extra]
+DefaultNC == NC("oth", 7, 0)
+Cfg(d, e, f, g, w, um, actor) == [d |-> d, e |-> e, f |-> f, g |-> g, w |-> w, um |-> um, actor |-> actor]
+AllRwx == 0..7
+Perm1Cfgs ==
+    \* the directory and the file of a single-path call: all classes x all triples
+    {Cfg(d, DefaultNC, f, DefaultNC, 493, 18, 1001) : d \in NodeCfgs(AllRwx, {0}), f \in NodeCfgs(IF MaxLen >= 2 THEN AllRwx ELSE {0, 2, 4, 6, 7}, {0})}
+    \* sticky and set-gid directories
+    \cup {Cfg(d, DefaultNC, f, DefaultNC, 493, 18, 1001) : d \in NodeCfgs({3, 7}, {512, 1024}), f \in NodeCfgs({6}, {0})}
+    \* other umasks for the creating calls
+    \cup {Cfg(d, DefaultNC, NC("own", 6, 0), DefaultNC, 493, um, 1001) : d \in NodeCfgs({7}, {0, 1024}), um \in {0, 63, 511}}
+    \* /w without search or read permission for the acting user (who is "other" for /w)
+    \cup {Cfg(NC("own", 7, 0), DefaultNC, NC("own", 7, 0), DefaultNC, w, 18, 1001) : w \in {492, 488, 489}}
+    \* the administrator is never refused
+    \cup {Cfg(d, DefaultNC, f, DefaultNC, 448, um, 0) : d \in NodeCfgs({0}, {0, 512}), f \in NodeCfgs({0}, {0}), um \in {18, 63}}
+Perm2Rwx == IF MaxLen >= 2 THEN AllRwx ELSE {0, 1, 2, 3, 7}
+Perm2Cfgs ==
+    {Cfg(d, e, f, NC("oth", 6, 0), 493, 18, 1001) : d \in NodeCfgs(Perm2Rwx, {0}), e \in NodeCfgs(Perm2Rwx, {0}), f \in NodeCfgs({6}, {0})}
+    \cup {Cfg(d, e, f, g, 493, 18, 1001) : d \in NodeCfgs({3}, {0, 512}), e \in NodeCfgs({3}, {0, 512}), f \in NodeCfgs({6}, {0}), g \in NodeCfgs({6}, {0})}
+    \cup {Cfg(NC("oth", 0, 0), NC("oth", 0, 512), NC("oth", 0, 0), NC("oth", 0, 0), 448, 18, 0)}
+PermOpenFlags == {<<"RDONLY">>, <<"WRONLY">>, <<"RDWR">>, <<"WRONLY", "TRUNC">>, <<"WRONLY", "APPEND">>, <<"RDONLY", "TRUNC">>}
+Perm1Calls ==
+    {[C0 EXCEPT !.op = o, !.p = p] : o \in {"stat", "lstat", "readfile", "evalsymlinks", "remove", "removeall", "chdir", "readdir"}, p \in {PF, PD}}
+    \cup {[C0 EXCEPT !.op = "openclose", !.p = PF, !.flag = f] : f \in PermOpenFlags}
+    \cup {[C0 EXCEPT !.op = "openclose", !.p = PD, !.flag = <<"RDONLY">>]}
+    \cup {[C0 EXCEPT !.op = "openclose", !.p = PNewD, !.flag = f, !.perm = 438] : f \in {<<"WRONLY", "CREATE">>, <<"RDWR", "CREATE", "EXCL">>, <<"RDONLY", "CREATE">>}}
+    \cup {[C0 EXCEPT !.op = "truncate", !.p = PF, !.n = 0], [C0 EXCEPT !.op = "chtimes", !.p = PF, !.n = 5], [C0 EXCEPT !.op = "chtimes", !.p = PD, !.n = 5]}
+    \cup {[C0 EXCEPT !.op = "chmod", !.p = p, !.perm = m] : p \in {PF, PD}, m \in {384, 3071}}
+    \cup {[C0 EXCEPT !.op = o, !.p = PF, !.uid = u, !.gid = g] : o \in {"chown", "lchown"}, u \in {-1, 1001, 1002}, g \in {-1, 1001, 1002}}
+    \cup {[C0 EXCEPT !.op = "chown", !.p = PD, !.uid = -1, !.gid = 1001]}
+    \cup {[C0 EXCEPT !.op = "mkdir", !.p = PNewD, !.perm = m] : m \in {511, 1517}}
+    \cup {[C0 EXCEPT !.op = "mkdirall", !.p = AbsP(<<"w", "d", "a", "b">>), !.perm = 511]}
+    \cup {[C0 EXCEPT !.op = "writefile", !.p = PNewD, !.data = <<2>>, !.perm = 438], [C0 EXCEPT !.op = "writefile", !.p = PF, !.data = <<2>>, !.perm = 438]}
+    \cup {[C0 EXCEPT !.op = "create", !.p = PNewD], [C0 EXCEPT !.op = "create", !.p = PF]}
+    \cup {[C0 EXCEPT !.op = "symlink", !.p = PNewD, !.q = RelP(<<"f">>)]}
+    \cup {[C0 EXCEPT !.op = o, !.p = PD] : o \in {"createtemp", "mkdirtemp"}}
+    \cup {[C0 EXCEPT !.op = o, !.p = PF, !.q = PNewD] : o \in {"rename", "link"}}
+Perm2Calls ==
+    {[C0 EXCEPT !.op = o, !.p = PF, !.q = q] : o \in {"rename", "link"}, q \in {PNewE, PG}}
+    \cup {[C0 EXCEPT !.op = "rename", !.p = PD, !.q = PNewE], [C0 EXCEPT !.op = "rename", !.p = PE, !.q = PNewD]}
+    \cup {[C0 EXCEPT !.op = "rename", !.p = PG, !.q = PF]}
+PermCfgs == IF Profile = "perm1" THEN Perm1Cfgs ELSE Perm2Cfgs
+
 \* a call on a two-component path whose first component does not exist tells nothing that the
 \* same call with the other second component does not: keep one representative
 Pruned(s, c) ==
@@ -226,8 +301,10 @@ Calls(s) ==
                  [] Profile = "enum" -> (IF Len(hist) < MaxLen - 1 THEN EnumBuild ELSE {}) \cup (IF Len(hist) >= 1 THEN EnumCalls ELSE {})
                  [] Profile = "symq" -> SymQCalls
                  [] Profile = "symchain" -> ChainCalls
+                 [] Profile = "perm1" -> Perm1Calls
+                 [] Profile = "perm2" -> Perm2Calls
                  [] OTHER -> NsCalls IN
-    IF Profile \in {"symq", "symchain", "enum"} THEN all ELSE {c \in all : ~Pruned(s, c)}
+    IF Profile \in {"symq", "symchain", "enum", "perm1", "perm2"} THEN all ELSE {c \in all : ~Pruned(s, c)}
 
 EdgeFile == IF "VERIF_EDGES" \in DOMAIN IOEnv THEN IOEnv.VERIF_EDGES ELSE ""
 GenImpl == IF "VERIF_IMPL" \in DOMAIN IOEnv THEN IOEnv.VERIF_IMPL ELSE "none"
@@ -251,15 +328,16 @@ Init ==
     /\ CASE Profile = "symq" -> \E g \in Graphs : hist = GraphHist(g) /\ st = RunCalls(InitSt, GraphHist(g))
          [] Profile = "nsseed" -> \E hh \in SeedHists : hist = hh /\ st = RunCalls(InitSt, hh)
          [] Profile = "symchain" -> \E n \in ChainLens : hist = ChainHist(n) /\ st = RunCalls(InitSt, ChainHist(n))
+         [] Profile \in {"perm1", "perm2"} -> \E cfg \in PermCfgs : hist = PermHist(cfg) /\ st = RunCalls(InitSt, PermHist(cfg))
          [] OTHER -> st = InitFor /\ hist = <<>>
 
 \* configured profiles issue exactly one call from each initial state
-Budget == IF Profile \in {"symq", "symchain"} THEN 1 ELSE MaxLen
+Budget == IF Profile \in {"symq", "symchain", "perm1", "perm2"} THEN 1 ELSE MaxLen
 
 EmitHist == IF Profile = "handles" THEN <<[C0 EXCEPT !.op = "writefile", !.p = FA, !.data = <<1, 2, 3>>, !.perm = 420]>> \o hist ELSE hist
 
 Next ==
-    /\ (IF Profile \in {"symq", "symchain"} THEN last.call.op = ""
+    /\ (IF Profile \in {"symq", "symchain", "perm1", "perm2"} THEN last.call.op = ""
         ELSE IF Profile = "nsseed" THEN Len(hist) < MaxLen + 5 /\ (last.call.op = "" \/ Len(hist) < 4 + MaxLen)
         ELSE Len(hist) < MaxLen)
     /\ \E c \in Calls(st) :
@@ -302,7 +380,8 @@ TreeWellFormed ==
 
 \* a failed call changes nothing (RemoveAll is documented to remove what it can)
 FailedCallChangesNothing ==
-    [][(last'.res.err \notin {"ok", "EOF"} /\ last'.call.op # "removeall") => (st' = st)]_vars
+    \* (the composite calls RemoveAll and MkdirAll keep what they did before the step that failed)
+    [][(last'.res.err \notin {"ok", "EOF"} /\ last'.call.op \notin {"removeall", "mkdirall"}) => (st' = st)]_vars
 
 \* a successful call changes only what it names: every path outside the (resolved) operands
 \* keeps its inode, and every inode other than the operands' keeps its attributes and content
